@@ -266,11 +266,21 @@ Definition refund_check (step : nat) (t : track) (prev cur : obs) (e : ste) (sin
       else if beqb (s_refund_chain e) [] then []
       else if total =? 0 then []
       else
-        (* a new transfer to the originating address on the originating chain *)
-        if existsb (fun x => beqb (s_chain x) (s_refund_chain e) && beqb (s_recipient x) (s_refund_addr e)
-                             && (s_fee x =? 0) && (s_comm x =? 0) && negb (in_entries x (all_entries prev)))
-                   (ob_pool cur)
-        then [] else [viol k_c12_dest step [VB (s_chain e); vNat (s_id e)]]
+        (* a new transfer to the originating address on the originating chain, for the full value in that chain's units *)
+        let cands := filter (fun x => beqb (s_chain x) (s_refund_chain e) && beqb (s_recipient x) (s_refund_addr e)
+                                      && (s_fee x =? 0) && (s_comm x =? 0) && negb (in_entries x (all_entries prev)))
+                            (ob_pool cur) in
+        match cands with
+        | [] => [viol k_c12_dest step [VB (s_chain e); vNat (s_id e)]]
+        | _ =>
+            match denom_to_token (tr_tokens t) (s_refund_chain e) (ti_denom ti) with
+            | Some rti =>
+                let want := to_ext (ti_dec rti) total in
+                if existsb (fun x => s_token x =? want) cands then []
+                else [viol k_c12_amount step [VB (s_chain e); vNat (s_id e); VI want; VL (map (fun x => VI (s_token x)) cands)]]
+            | None => []
+            end
+        end
   | _, _ => []
   end.
 
